@@ -417,7 +417,12 @@ def run_block(ev, stmts, records=None, follow_if=False):
     normalised subscript texts); loops are executed once with a symbolic loop variable; every store is
     appended to `records` as (target_text, Rat, stmt)."""
     for st in stmts:
-        if isinstance(st, ast.Assign):
+        if isinstance(st, ast.Assign) and len(st.targets) == 1 and isinstance(st.targets[0], (ast.Tuple, ast.List)) \
+                and isinstance(st.value, (ast.Tuple, ast.List)) and len(st.value.elts) == len(st.targets[0].elts):
+            vals = [ev.ev(v) for v in st.value.elts]
+            for t, v in zip(st.targets[0].elts, vals):
+                _store(ev, t, v, st, records)
+        elif isinstance(st, ast.Assign):
             try:
                 val = ev.ev(st.value)
             except Exception:
